@@ -108,6 +108,9 @@ def check(run):
     from . import C01
     with R.as_rule('C05.exact'):
         C01.alias(R)
+    from .common import event_fields
+    event_fields(R, 'C05.exact', ['Text', 'Closed', 'Closing'])     # the delivered string is the decoded string
+    awaitables_fresh(R, 'C05.route')         # a read cut across two recv() calls does not change what the next read sees
 
 
 # ------------------------------------------------------------------------------------------------ dfa
@@ -443,6 +446,29 @@ def awaitables_fresh(R, RID):
     rd = ReachingDefs(g)
     from .common import value_cases
     n_ = 0
+    # the factories really construct: a memoising decorator hands the same (mutable) awaitable out again
+    nfac = 0
+    facs = set()
+    for key, cx in sorted(R.types.ctxs.items(), key=lambda kv: str(kv[0])):
+        fi = cx.func
+        if fi.module.name.startswith('examples') or fi.qual in facs:
+            continue
+        makes = False
+        for x_ in own_nodes(fi.node):
+            if isinstance(x_, ast.Return) and x_.value is not None and any(
+                    isinstance(t, str) and t.startswith('inst:parser._Read') for t in R.types.expr(x_.value, cx)):
+                makes = True
+        if not makes:
+            continue
+        nfac += 1
+        facs.add(fi.qual)
+        decs = [U(d_) for d_ in fi.node.decorator_list
+                if U(d_).split('(')[0].split('.')[-1] not in ('staticmethod', 'classmethod')]
+        R.ob(RID, 'awaitable factory %s builds a new object per call' % fi.qual, not decs,
+             '%s is wrapped by %s: calls with equal arguments get the same awaitable object back, whose outstanding byte '
+             'count Parser.feed mutates - after a read that was split across two recv() calls the next read of that size is '
+             'cut short' % (fi.qual, decs), func=fi, node=fi.node, construct='decorated awaitable factory %s' % fi.qual)
+    need(nfac >= 1, 'awaitable factory read_text not found')
     for y in g.yields():
         if y.ast.value is None:
             continue
@@ -818,6 +844,22 @@ def _strict_decode_of(R, g, rd, n, e, src_names):
             if final is None or U(final) != 'True':
                 return False, '%s without final=True silently drops a truncated trailing sequence' % names[0]
             return True, ''
+        if isinstance(fn, ast.Attribute) and fn.attr == 'join' and len(args) == 1 and isinstance(
+                args[0], (ast.GeneratorExp, ast.ListComp)):
+            # pieces decoded one by one with an incremental decoder: strict only when the decoder is told where the
+            # message ends (final=True on the last piece) - otherwise a truncated trailing sequence is silently dropped
+            inc = False
+            for x in ast.walk(g.ctx.func.node):
+                if isinstance(x, ast.Call) and U(x.func).split('.')[-1] in ('getincrementaldecoder', 'IncrementalDecoder',
+                                                                             'iterdecode'):
+                    inc = True
+            finals = [x for x in ast.walk(g.ctx.func.node) if isinstance(x, ast.Call) and (
+                any(k.arg == 'final' and U(k.value) == 'True' for k in x.keywords)
+                or (isinstance(x.func, ast.Attribute) and x.func.attr == 'decode' and len(x.args) == 2
+                    and U(x.args[1]) == 'True'))]
+            if inc and not finals:
+                return False, 'the pieces are decoded with an incremental decoder that is never finalised (final=True): a ' \
+                              'message ending inside a multi-byte sequence is accepted and the dangling bytes are dropped'
         return None, 'unrecognised decoder %s' % U(fn)
     enc = args[0] if args else kws.get('encoding')
     err = args[1] if len(args) > 1 else kws.get('errors')
